@@ -54,6 +54,7 @@ func aOf(rr dns.RR) (a [4]byte, ok bool) {
 type pipeVerdict struct {
 	Judged     bool
 	Synth      int // synthesised AAAA records in the reply
+	SynthAddrs [][16]byte
 	Reasons    []string
 	Gray       string
 	Violations []string
@@ -201,13 +202,24 @@ func forbidReasons(c *pipeCase, m *model, af aFacts) (reasons []string, gray str
 	return reasons, gray
 }
 
-func prefixLenOf(m *model, a [16]byte) (refPrefix, bool) {
+// embedReading is one way to read an address: under a configured prefix that
+// contains it. Configured prefixes may overlap, so an address can have several
+// readings; it is an RFC 6052 embedding under every prefix where conf holds.
+type embedReading struct {
+	p    refPrefix
+	v4   [4]byte
+	conf bool
+}
+
+// readingsOf lists the readings of a under every legal configured prefix that
+// contains it, in configured order.
+func readingsOf(m *model, a [16]byte) (out []embedReading) {
 	for _, p := range m.prefixes {
-		if p.contains(a) {
-			return p, true
+		if v4, in, conf := refExtract(p.Addr, p.Bits, a); in {
+			out = append(out, embedReading{p, v4, conf})
 		}
 	}
-	return refPrefix{}, false
+	return out
 }
 
 func judgePipe(r *vlib.Run, e *env, c *pipeCase, o outcome) (v pipeVerdict) {
@@ -401,27 +413,57 @@ func judgePipe(r *vlib.Run, e *env, c *pipeCase, o outcome) (v pipeVerdict) {
 	for _, rr := range synth {
 		addr, _ := aaaaOf(rr)
 		cnt("synth_records", 1)
-		p, in := prefixLenOf(m, addr)
-		if !in {
+		readings := readingsOf(m, addr)
+		if len(readings) == 0 {
 			viol("synth/aaaa-outside-configured-prefixes",
 				fmt.Sprintf("reply for %s contains AAAA %s that the downstream never sent and that lies in no legal configured Pref64 %v", c.Qname, netip.AddrFrom16(addr), m.prefixes), c)
 			continue
 		}
-		v4, _, conf := refExtract(p.Addr, p.Bits, addr)
-		_, isA := af.addrs[v4]
-		if !conf || !isA || refEmbed(p.Addr, p.Bits, v4) != addr {
-			viol(fmt.Sprintf("embed/pipeline-not-rfc6052/len%d", p.Bits),
-				fmt.Sprintf("synthesised %s under %s is not the RFC 6052 embedding of any A record of the target (reads back as %s, conformant=%v; A records %v)",
-					netip.AddrFrom16(addr), p, v4s(v4), conf, addrList(af)), c)
+		// the (prefix, A record) pairs this address is the embedding of; with
+		// overlapping prefixes the producing prefix need not be the first one
+		// that contains the address
+		var match []embedReading
+		matchAt := -1
+		for i, rd := range readings {
+			if _, isA := af.addrs[rd.v4]; rd.conf && isA && refEmbed(rd.p.Addr, rd.p.Bits, rd.v4) == addr {
+				if matchAt < 0 {
+					matchAt = i
+				}
+				match = append(match, rd)
+			}
+		}
+		if len(match) == 0 {
+			rd := readings[0]
+			viol(fmt.Sprintf("embed/pipeline-not-rfc6052/len%d", rd.p.Bits),
+				fmt.Sprintf("synthesised %s under %s is not the RFC 6052 embedding of any A record of the target (reads back as %s, conformant=%v; %d configured prefix(es) contain it; A records %v)",
+					netip.AddrFrom16(addr), rd.p, v4s(rd.v4), rd.conf, len(readings), addrList(af)), c)
 			continue
 		}
-		if m.skipA(p, v4) == 1 {
+		v.SynthAddrs = append(v.SynthAddrs, addr)
+		allSkipped := true
+		aTTL := uint32(0)
+		for _, rd := range match {
+			if m.skipA(rd.p, rd.v4) != 1 {
+				allSkipped = false
+			}
+			aTTL = max(aTTL, af.addrs[rd.v4])
+			seen[pair{rd.p.String(), rd.v4}] = true
+			lens[rd.p.Bits] = true
+			cnt(fmt.Sprintf("synth_pairs_len%d", rd.p.Bits), 1)
+		}
+		v4 := match[0].v4
+		if allSkipped {
 			viol("synth/excluded-ipv4-under-wkp",
 				fmt.Sprintf("synthesised %s embeds %s, which is in the IPv4 exclusion set of the well-known prefix", netip.AddrFrom16(addr), v4s(v4)), c)
 		}
-		seen[pair{p.String(), v4}] = true
-		lens[p.Bits] = true
-		cnt(fmt.Sprintf("synth_pairs_len%d", p.Bits), 1)
+		if matchAt > 0 {
+			// an earlier configured prefix contains the address without being
+			// the one it was embedded under
+			cnt("synth_records_under_overlapped_prefix", 1)
+		}
+		if len(match) > 1 {
+			cnt("synth_records_ambiguous_overlap", 1)
+		}
 		if !strings.EqualFold(rr.Hdr.Name, af.terminal) {
 			viol("owner/not-terminal-name",
 				fmt.Sprintf("synthesised AAAA owned by %q; the queried name after the alias chain is %q", rr.Hdr.Name, af.terminal), c)
@@ -429,7 +471,7 @@ func judgePipe(r *vlib.Run, e *env, c *pipeCase, o outcome) (v pipeVerdict) {
 		if !strings.EqualFold(af.terminal, c.Qname) {
 			cnt("synth_records_behind_alias_chain", 1)
 		}
-		if aTTL := af.addrs[v4]; rr.Hdr.Ttl > aTTL {
+		if rr.Hdr.Ttl > aTTL {
 			viol("ttl/exceeds-a-ttl", fmt.Sprintf("synthesised AAAA TTL %d > TTL %d of A %s", rr.Hdr.Ttl, aTTL, v4s(v4)), c)
 		}
 		if negKnown {
@@ -475,6 +517,9 @@ func judgePipe(r *vlib.Run, e *env, c *pipeCase, o outcome) (v pipeVerdict) {
 	}
 	if len(m.prefixes) > 1 {
 		cnt("synth_replies_multi_prefix", 1)
+	}
+	if len(m.inner) > 0 {
+		cnt("synth_replies_overlapping_prefixes", 1)
 	}
 	r.Distinct(c.Ctr + fmt.Sprintf("synth/%v/%s/%s/%d", sortedLens(lens), c.Resp.Shape, c.A.Shape, len(af.addrs)))
 	if r.Counter(c.Ctr+"synth_replies") <= 2 {
@@ -534,17 +579,25 @@ func judgePTR(r *vlib.Run, e *env, c *pipeCase, o outcome) (v ptrVerdict) {
 	}
 	v.Judged = true
 	addr, wellFormed := refParseIP6Arpa(c.Qname)
-	var (
-		inPrefix bool
-		pfx      refPrefix
-		v4       [4]byte
-		conf     bool
-	)
+	// Readings of the address under every configured prefix that contains it
+	// (prefixes may overlap). must = the first reading under which the address
+	// is a conformant embedding of an IPv4 address that has to be translated:
+	// such an address is one the server synthesises, so its PTR name has to
+	// map back, whichever other configured prefix also covers it.
+	var readings []embedReading
 	if wellFormed {
-		if p, ok := prefixLenOf(m, addr); ok {
-			inPrefix, pfx = true, p
-			v4, _, conf = refExtract(p.Addr, p.Bits, addr)
+		readings = readingsOf(m, addr)
+	}
+	inPrefix := len(readings) > 0
+	anyConf, mustAt := false, -1
+	for i, rd := range readings {
+		anyConf = anyConf || rd.conf
+		if rd.conf && mustAt < 0 && m.skipA(rd.p, rd.v4) == 0 {
+			mustAt = i
 		}
+	}
+	if len(m.inner) > 0 {
+		cnt("ptr_cases_overlapping_prefixes", 1)
 	}
 	var forbid []string
 	if !c.RD {
@@ -571,7 +624,7 @@ func judgePTR(r *vlib.Run, e *env, c *pipeCase, o outcome) (v ptrVerdict) {
 		}
 	}
 	if cname == nil {
-		mustTranslate := len(forbid) == 0 && inPrefix && conf && m.skipA(pfx, v4) == 0
+		mustTranslate := len(forbid) == 0 && mustAt >= 0
 		v.MustTranslate = mustTranslate
 		switch {
 		case mustTranslate && c.Shadowed:
@@ -583,9 +636,15 @@ func judgePTR(r *vlib.Run, e *env, c *pipeCase, o outcome) (v ptrVerdict) {
 			// marked SERVFAIL instead of an answer is not a mapping error
 			cnt("ptr_chase_attempt_limit", 1)
 		case mustTranslate:
-			viol("ptr/not-translated",
-				fmt.Sprintf("PTR %s is the ip6.arpa name of %s = RFC 6052 embedding of %s in %s, but the reply has no CNAME to %s",
-					c.Qname, netip.AddrFrom16(addr), v4s(v4), pfx, refInAddrArpa(v4)), c)
+			rd := readings[mustAt]
+			sig, note := "ptr/not-translated", ""
+			if mustAt > 0 {
+				sig += "/under-overlapped-prefix"
+				note = fmt.Sprintf(" (%s, listed earlier, also contains the address but not as a conformant embedding of a translatable address)", readings[0].p)
+			}
+			viol(sig,
+				fmt.Sprintf("PTR %s is the ip6.arpa name of %s = RFC 6052 embedding of %s in %s%s, but the reply has no CNAME to %s",
+					c.Qname, netip.AddrFrom16(addr), v4s(rd.v4), rd.p, note, refInAddrArpa(rd.v4)), c)
 		default:
 			cnt("ptr_passthrough", 1)
 			switch {
@@ -595,7 +654,7 @@ func judgePTR(r *vlib.Run, e *env, c *pipeCase, o outcome) (v ptrVerdict) {
 				cnt("ptr_passthrough_malformed_name", 1)
 			case !inPrefix:
 				cnt("ptr_passthrough_outside_prefixes", 1)
-			case !conf:
+			case !anyConf:
 				cnt("ptr_passthrough_nonconformant_address", 1)
 			default:
 				cnt("ptr_passthrough_excluded_or_open_ipv4_under_wkp", 1)
@@ -613,29 +672,64 @@ func judgePTR(r *vlib.Run, e *env, c *pipeCase, o outcome) (v ptrVerdict) {
 		viol("ad/set-on-ptr-translation", fmt.Sprintf("PTR %s answered with a synthesised CNAME and AD=1", c.Qname), c)
 	}
 	t4, ok := refParseInAddr(cname.Target)
+	// the reading the redirect target agrees with (a conformant one preferred)
+	hit := -1
+	for i, rd := range readings {
+		if rd.v4 == t4 && (hit < 0 || (rd.conf && !readings[hit].conf)) {
+			hit = i
+		}
+	}
 	switch {
 	case !ok:
 		viol("ptr/target-not-in-addr-arpa", fmt.Sprintf("PTR %s redirected to %q", c.Qname, cname.Target), c)
 	case !wellFormed || !inPrefix:
 		viol("ptr/translated-unmappable",
 			fmt.Sprintf("PTR %s (well-formed=%v, inside a configured Pref64=%v) redirected to %s", c.Qname, wellFormed, inPrefix, cname.Target), c)
-	case t4 != v4:
-		viol(fmt.Sprintf("ptr/wrong-ipv4/len%d", pfx.Bits),
-			fmt.Sprintf("PTR %s (%s in %s) redirected to %s; the embedded IPv4 address is %s", c.Qname, netip.AddrFrom16(addr), pfx, cname.Target, v4s(v4)), c)
-	case !conf:
+	case hit < 0:
+		rd := readings[0]
+		if mustAt >= 0 {
+			rd = readings[mustAt]
+		}
+		viol(fmt.Sprintf("ptr/wrong-ipv4/len%d", rd.p.Bits),
+			fmt.Sprintf("PTR %s (%s in %s) redirected to %s; the embedded IPv4 address is %s (%d configured prefix(es) contain the address, none reads as the target)",
+				c.Qname, netip.AddrFrom16(addr), rd.p, cname.Target, v4s(rd.v4), len(readings)), c)
+	case !readings[hit].conf:
 		cnt("ptr_translated_nonconformant_address", 1)
 	default:
-		if refEmbed(pfx.Addr, pfx.Bits, t4) != addr {
+		rd := readings[hit]
+		if refEmbed(rd.p.Addr, rd.p.Bits, t4) != addr {
 			viol("ptr/roundtrip", "re-embedding the redirect target does not give the queried address", c)
 		}
-		cnt(fmt.Sprintf("ptr_translated_len%d", pfx.Bits), 1)
-		if m.skipA(pfx, v4) == 1 {
+		cnt(fmt.Sprintf("ptr_translated_len%d", rd.p.Bits), 1)
+		if m.skipA(rd.p, rd.v4) == 1 {
 			cnt("ptr_translated_excluded_ipv4_under_wkp", 1)
 		}
 		if nPTR > 0 {
 			cnt("ptr_translated_with_chased_ptr", 1)
 		}
-		r.Distinct(c.Ctr + fmt.Sprintf("ptr/%d/%s/%s", pfx.Bits, c.PTR.Shape, c.Resp.Shape))
+		nConf := 0
+		for _, x := range readings {
+			if x.conf {
+				nConf++
+			}
+		}
+		switch {
+		case nConf > 1:
+			// a conformant embedding under two overlapping prefixes: either
+			// IPv4 address maps back to the queried address
+			cnt("ptr_translated_ambiguous_overlap", 1)
+		case hit > 0:
+			// an earlier configured prefix covers the address without the
+			// address being an embedding under it
+			cnt("ptr_translated_under_overlapped_prefix", 1)
+			cnt(fmt.Sprintf("ptr_translated_under_overlapped_prefix_len%d_in_len%d", rd.p.Bits, readings[0].p.Bits), 1)
+		case len(readings) > 1:
+			cnt("ptr_translated_under_overlapping_prefix_listed_first", 1)
+		}
+		r.Distinct(c.Ctr + fmt.Sprintf("ptr/%d/%s/%s", rd.p.Bits, c.PTR.Shape, c.Resp.Shape))
+		if len(readings) > 1 {
+			r.Distinct(c.Ctr + fmt.Sprintf("ptr-overlap/%d-in-%d/at%d/%s", rd.p.Bits, readings[0].p.Bits, hit, c.PTR.Shape))
+		}
 	}
 	return v
 }
